@@ -43,10 +43,14 @@ class DefaultDeploymentManager(DeploymentManager):
                 self.events_map[deployment_name] = asyncio.Event()
                 self.dependency_graph[deployment_name] = set()
                 connector_type = connector_classes[deployment_config.type]
-                deployment_config = await self._inner_deploy(
-                    connector_type=connector_type,
-                    deployment_config=deployment_config,
-                )
+                try:
+                    deployment_config = await self._inner_deploy(
+                        connector_type=connector_type,
+                        deployment_config=deployment_config,
+                    )
+                except Exception:
+                    self.events_map[deployment_name].set()
+                    raise
                 if deployment_config.lazy:
                     connector = FutureConnector(
                         name=deployment_name,
